@@ -98,6 +98,15 @@ Section C10.
     (forall p, In p (pivots P tree) -> removed p = false) ->
     lelems P removed tree = filter (fun x => negb (removed x)) (elems P tree).
   Proof. exact (lelems_filter P). Qed.
+  (* remove() / nearest(): the flag nearestKInternal(data, 1) returns with its single element is true only for a pivot of
+     the tree and false only for a data element that is not in the removal cache: remove() therefore rebuilds the tree
+     whenever it would otherwise leave a removed pivot behind (pivots are offered to queries without an isRemoved test) *)
+  Theorem C10_gnat_nearest1_flag_meaning : forall removed offs pick q tree nbh piv,
+    gnat_nearestK P d peqb removed offs pick 1 q tree = Some (nbh, piv) ->
+    forall dd x, nbh = [(dd, x)] ->
+      if piv then In x (map (node_pivot P) (anodes P tree))
+      else (In x (flat_map (node_data P) (anodes P tree)) /\ removed x = false).
+  Proof. exact (gnat_nearest1_flag P d peqb). Qed.
 End C10.
 
 Print Assumptions C10_nearestK_exact.
@@ -112,6 +121,7 @@ Print Assumptions C10_examined_suffices.
 Print Assumptions C10_gnat_nearestR_exact.
 Print Assumptions C10_gnat_nearestK_exact.
 Print Assumptions C10_gnat_live_elements.
+Print Assumptions C10_gnat_nearest1_flag_meaning.
 
 (* non-vacuity: L1 metric on Z^2 *)
 Definition l1 (a b : Z * Z) : Z := Z.abs (fst a - fst b) + Z.abs (snd a - snd b).
